@@ -39,6 +39,13 @@ var brokenTemplates = []string{
 	"set_account_meta(\"a\", \"k\", 1)",
 	"set_account_meta(@a, @b, 1)",
 	"set_account_meta(@a, \"k\")",
+	"vars {\n account $acc1\n}\nsend [USD *] (\n source = $acc1 allowing unbounded overdraft\n destination = @d\n)",
+	"vars {\n account $acc1\n}\nsend [USD *] (\n source = { @a $acc1 allowing unbounded overdraft }\n destination = @d\n)",
+	"vars {\n account $acc1\n portion $por1\n}\nsend [USD *] (\n source = { $por1 from $acc1 remaining from @b }\n destination = @d\n)",
+	"vars {\n account $acc1\n monetary $mon1\n}\nsend [USD *] (\n source = { max $mon1 from $acc1 allowing unbounded overdraft @b }\n destination = @d\n)",
+	"vars {\n number $num1\n monetary $mon1\n}\nset_tx_meta(\"total\", $num1 + $mon1)",
+	"vars {\n number $num1\n monetary $mon1\n}\nset_account_meta(@a, \"left\", $mon1 - $num1)",
+	"vars {\n string $str1\n}\nset_tx_meta(\"k\", 1 + $str1)",
 	"unknown_fn(1)",
 	"balance(@a, USD)",
 	"meta(@a, \"k\")",
